@@ -601,6 +601,28 @@ func didDomains(e *domEnv, thorough bool) []*msgDom {
 			d.Authentications = []didtypes.VerificationRelationship{didtypes.NewVerificationRelationshipDedicated(*vmOf(d, "ded", es256k, "0"))}
 		})},
 		{Label: "empty-relationship", Odd: true, Set: withDoc(func(d *didtypes.DIDDocument) { d.Authentications = []didtypes.VerificationRelationship{{}} })},
+		// lists of several entries: every entry is checked, wherever it stands
+		{Label: "dedicated-then-dangling-ref", Odd: true, Set: withDoc(func(d *didtypes.DIDDocument) {
+			d.Authentications = []didtypes.VerificationRelationship{didtypes.NewVerificationRelationshipDedicated(*vmOf(d, "ded", es256k, pub)), ref(d, "ghost")}
+		})},
+		{Label: "dedicated-then-malformed-ref", Odd: true, Set: withDoc(func(d *didtypes.DIDDocument) {
+			d.Authentications = []didtypes.VerificationRelationship{didtypes.NewVerificationRelationshipDedicated(*vmOf(d, "ded", es256k, pub)), didtypes.NewVerificationRelationship(k.DIDs[1] + "#key 1")}
+		})},
+		{Label: "ref-then-dedicated-then-invalid-dedicated", Odd: true, Set: withDoc(func(d *didtypes.DIDDocument) {
+			first := ref(d, "key1")
+			if len(d.VerificationMethods) > 0 {
+				first = didtypes.NewVerificationRelationship(d.VerificationMethods[0].Id)
+			}
+			d.Authentications = []didtypes.VerificationRelationship{first, didtypes.NewVerificationRelationshipDedicated(*vmOf(d, "ded", es256k, pub)),
+				didtypes.NewVerificationRelationshipDedicated(*vmOf(d, "ded9", "", pub))}
+		})},
+		{Label: "dedicated-then-valid-ref", Odd: true, Set: withDoc(func(d *didtypes.DIDDocument) {
+			second := ref(d, "key1")
+			if len(d.VerificationMethods) > 0 {
+				second = didtypes.NewVerificationRelationship(d.VerificationMethods[0].Id)
+			}
+			d.Authentications = []didtypes.VerificationRelationship{didtypes.NewVerificationRelationshipDedicated(*vmOf(d, "ded", es256k, pub)), second}
+		})},
 	}}
 	otherRel := fdom{Name: "other-relationships", Classes: []fclass{
 		{Label: "none", Set: func(sdk.Msg) {}},
